@@ -4,7 +4,7 @@ import numpy as np
 from hypothesis import strategies as st
 
 from aurel.utils.memory import get_size
-from checks.c01_cache import designed_histories
+from checks.c01_cache import G, designed_histories
 from harness import cachemachine as CM
 from harness import selftest as _st
 from harness.common import PropertyFailure, Sub
@@ -222,6 +222,22 @@ def subchecks(tier):
             cfg["mem_gb"] = n[0] * n[1] * n[2] * 8 / 1024 ** 3 * (
                 0.5 if i % 2 else 5.0)
         dh.append(dict(h, cfg=cfg))
+    # computed entries frozen by a second freeze_data(), then used as
+    # operands; bracket requests for methods that take arguments followed by
+    # enough calculations for several clean-ups
+    base = designed_histories()[0]["cfg"]
+    for ce in (30, 2):
+        for first in ("st_Riemann_down4", "st_Ricci_down4", "gdown4",
+                      "s_Riemann_down3"):
+            dh.append(dict(cfg=dict(base, clear_every=ce), ops=[
+                G(first), dict(op="freeze"), G("st_Weyl_down4"),
+                G("Kretschmann"), G("st_Ricci_down3"), G("s_Ricci_down3"),
+                G("gdet"), G(first)]))
+        dh.append(dict(cfg=dict(base, clear_every=ce), ops=[
+            dict(op="getfunc", name="s_covd"), G("gammadet"),
+            dict(op="getfunc", name="trace3"), G("Ktrace"), G("betamag"),
+            G("A2"), dict(op="getfunc", name="null_ray_expansion"),
+            G("psi_bssnok"), G("Kup3"), G("gammaup3")]))
     return [
         Sub("bookkeeping", None, test, 128 if q else 3000, kind="machine",
             machine=factory, steps=40, shards=8 if q else 16, max_rounds=3, shrink_quick=False,
